@@ -15,6 +15,9 @@ pub enum Op {
     /// watched-file event for an on-disk doc: 2 changed on disk, 3 deleted
     Watched(u8, u8),
     Advance(u16),
+    /// let time pass until the debounce timer of doc `d`'s last edit is due (500 ms after it), `delta` - 1 ms off:
+    /// the next operation then meets the diagnostic task at its start
+    AdvanceToDebounce(u8, u8),
 }
 
 #[derive(Clone, Debug, Serialize, Deserialize)]
@@ -33,6 +36,16 @@ fn op_strategy() -> impl Strategy<Value = Op> {
         1 => (0..NDOCS).prop_map(Op::Save),
         1 => (0..NDOCS, 2u8..4).prop_map(|(d, t)| Op::Watched(d, t)),
         4 => prop_oneof![0u16..120, 300u16..720, 0u16..2500].prop_map(Op::Advance),
+        2 => (0..NDOCS, 0u8..3).prop_map(|(d, delta)| Op::AdvanceToDebounce(d, delta)),
+    ]
+}
+
+/// one operation, or "wait until doc d's debounce timer is due, then operate on d" (the operation meets the starting task)
+fn phrase_strategy() -> impl Strategy<Value = Vec<Op>> {
+    let on_doc = |d: u8| prop_oneof![(0u8..4).prop_map(move |k| Op::Edit(d, k)), Just(Op::Close(d)), Just(Op::Save(d)), (2u8..4).prop_map(move |t| Op::Watched(d, t))];
+    prop_oneof![
+        12 => op_strategy().prop_map(|o| vec![o]),
+        3 => (0..NDOCS, 0u8..3).prop_flat_map(move |(d, delta)| on_doc(d).prop_map(move |o| vec![Op::AdvanceToDebounce(d, delta), o])),
     ]
 }
 
@@ -61,16 +74,16 @@ impl Property for C30 {
         "C30"
     }
     fn rule(&self) -> String {
-        "cases = edit/close/save/watched-file histories (3-30 ops) over 3 documents (1 not on disk, 2 on disk) of a push-diagnostics client with virtual-time gaps around the 500 ms debounce (0-120, 300-720, 0-2500 ms) and a schedule vector for task starts/lock acquisitions, played in-process; oracle = after quiescence, for every open workspace file the LAST textDocument/publishDiagnostics for its uri equals diagnose_file of its current content (sorted (range, code, severity, message)); a file removed from the analysis (closed while not on disk, or deleted) ends with an empty published set; non-trivial = two edits of one file less than 500 virtual ms apart (overlapping debounce windows)".into()
+        "cases = edit/close/save/watched-file histories (3-30 ops) over 3 documents (1 not on disk, 2 on disk) of a push-diagnostics client with virtual-time gaps around the 500 ms debounce (0-120, 300-720, 0-2500 ms, or exactly up to the due time of a pending debounce timer -1/0/+1 ms) and a schedule vector for task starts/lock acquisitions, played in-process; oracle = after quiescence, for every open workspace file the LAST textDocument/publishDiagnostics for its uri equals diagnose_file of its current content (sorted (range, code, severity, message)); a file removed from the analysis (closed while not on disk, or deleted) ends with an empty published set; non-trivial = two edits of one file less than 500 virtual ms apart (overlapping debounce windows)".into()
     }
     fn assumptions(&self) -> Vec<String> {
         vec!["'fresh diagnosis' is computed on the server's own settled analysis (index staleness is C08/C09's concern)".into()]
     }
     fn cases(&self, tier: Tier) -> u32 {
-        tier.pick(2500, 100_000)
+        tier.pick(12_000, 300_000)
     }
     fn strategy(&self, tier: Tier) -> BoxedStrategy<Case> {
-        (proptest::collection::vec(op_strategy(), 3..tier.pick(30, 60)), prop_oneof![1 => Just(vec![]), 2 => proptest::collection::vec(any::<u8>(), 0..80)])
+        (proptest::collection::vec(phrase_strategy(), 3..tier.pick(30, 60)).prop_map(|v| v.into_iter().flatten().collect::<Vec<Op>>()), prop_oneof![1 => Just(vec![]), 2 => proptest::collection::vec(any::<u8>(), 0..80)])
             .prop_map(|(ops, schedule)| Case { ops, schedule })
             .boxed()
     }
@@ -139,6 +152,16 @@ impl Property for C30 {
                 Op::Advance(ms) => {
                     ls.advance(*ms as u64);
                     now += *ms as u64;
+                }
+                Op::AdvanceToDebounce(d, delta) => {
+                    if let Some(t) = last_edit_at[*d as usize % NDOCS as usize] {
+                        let due = (t + 500 + *delta as u64).saturating_sub(1);
+                        if due > now {
+                            ls.advance(due - now);
+                            now = due;
+                            obs.class("next-op-meets-due-debounce-timer");
+                        }
+                    }
                 }
             }
         }
